@@ -302,6 +302,11 @@ def finish_with_model(rep, prop, pairs, oracle_fail, proofs_ok):
     rep.notes["model_mismatches"] = len(mism)
 
 
+def heapq_merge(*its):
+    import heapq
+    return heapq.merge(*its)
+
+
 def direct_probes(prop, rep):
     """Witnesses outside the modelled item domain (strings, floats, one-shot plain iterators, initial=None):
     evaluated directly against the CPython counterpart."""
@@ -374,6 +379,24 @@ def direct_probes(prop, rep):
                             out[i].append("stop")
                 return out
             both("tee children %r %r" % (items, ops), "tee:children", tee_async, tee_sync)
+        # the very same iterator in several argument positions (the "grouper" recipe zip_longest(*[it] * n), pairing up
+        # neighbours with zip(it, it), ...): each position draws from the one shared iterator, as in the stdlib
+        def agen_of(xs):
+            async def g():
+                for x in xs:
+                    yield x
+            return g()
+        for n in (2, 3):
+            for ln in range(0, 8):
+                data = list(range(ln))
+                for mk_it, label in ((lambda: builtins.iter(data), "a regular iterator"), (lambda: agen_of(data), "an async generator")):
+                    def shared(tool_async, tool_sync):
+                        return (lambda: G.drive(alist(tool_async(*[mk_it()] * n))), lambda: list(tool_sync(*[builtins.iter(data)] * n)))
+                    for tname, ta_, ts_ in (("zip_longest", lambda *its: a.zip_longest(*its, fillvalue="fill"), lambda *its: itertools.zip_longest(*its, fillvalue="fill")),
+                                            ("zip", a.zip, zip), ("map", lambda *its: a.map(lambda *xs: xs, *its), lambda *its: map(lambda *xs: xs, *its)),
+                                            ("chain", a.chain, itertools.chain), ("merge", a.merge, heapq_merge)):
+                        fa_, fs_ = shared(ta_, ts_)
+                        both("%s(*[it] * %d) over %d items, it = %s" % (tname, n, ln, label), "%s:same-iterator-%d-times" % (tname, n), fa_, fs_)
         # items the library has no business inspecting: every comparison, truth test or hash of them raises
         class Untouchable:
             def _no(self, *a):
@@ -637,7 +660,7 @@ def _stop_as_async(f):
         raise StopAsyncIteration
 
 
-CALLABLE_FLAVOURS = ["def", "partial", "object", "awaitobj", "awaitclass"]
+CALLABLE_FLAVOURS = ["def", "partial", "object", "awaitobj", "awaitclass", "object-unhashable", "object-equal", "object-equal"]
 
 
 def check_values(prop, tier, seed, tools):
@@ -869,6 +892,20 @@ def check_faults(prop, tier, seed):
                     G.Src.close_result = None
                 if whyt is None and rt is not None and rp is not None and rt["outcome"][:2] != rp["outcome"][:2]:
                     whyt = ("close-result-matters", "with sources whose aclose() returns a truthy value the cancelled run ends differently: %r vs %r" % (rt["outcome"][:2], rp["outcome"][:2]))
+                why = whyt
+            if why is None and prop in ("C04", "C18") and nplans % 3 == 1 and c.name != "dict":
+                # the source objects themselves are falsy (say, streams whose __bool__ reports "nothing buffered"): they are
+                # released like any other (dict is left out: it documents `if not iterable` as "no iterable given")
+                G.Src.falsy = True
+                try:
+                    if prop == "C18":
+                        rt, whyt = run_cancel(cp, uk)
+                    else:
+                        rt, whyt = run_impl(cp), None
+                finally:
+                    G.Src.falsy = False
+                if whyt is None and rt is not None and rp is not None and released_problem(c, rt) and not released_problem(c, rp):
+                    whyt = ("falsy-source-leak", "with falsy source objects a source is not released (states %r) after %r" % (rt["states"], cp.plan))
                 why = whyt
             if why is None and prop in ("C04", "C06") and nplans % 3 == 0:
                 # what a source's aclose() returns must not matter (it is not an __aexit__)
@@ -1102,6 +1139,13 @@ def falsy_callable_fault_probes(rep):
 
             def __len__(self):
                 return 0
+
+            # value-like: every such object equals every other and hashes alike, yet each is its own callable
+            def __eq__(self, other):
+                return type(other).__name__ == "K"
+
+            def __hash__(self):
+                return 11
             if asynchronous == "awaitobj":
                 def __call__(self, *args):          # a plain method handing back an awaitable object (not a coroutine)
                     outer = self
